@@ -271,6 +271,19 @@ func smtpOracles(c *core.Ctx, sc *smtpCase, res *dialogueResult, st *smtpStack) 
 		if !bytes.HasPrefix(m.source, []byte("Return-Path: <")) {
 			fail("trace-headers", "stored source does not start with the Return-Path line")
 		}
+		// C02/C01: every copy, in every mailbox, carries the complete transmitted data after the trace lines
+		if env.cap == 0 {
+			found := false
+			for _, b := range sc.d.blocks {
+				if bytes.HasSuffix(m.source, b) && len(m.source) > len(b) {
+					found = true
+					break
+				}
+			}
+			if !found {
+				fail("content-intact", fmt.Sprintf("the copy in mailbox %q (subject %q, %d bytes) does not end with the data of any transmitted message", m.mailbox, m.subject, len(m.source)))
+			}
+		}
 	}
 	// ---- C01 / C17: exactly the expected copies, nothing else (only when every acknowledged transaction was attributable and no cap)
 	if exact && sc.cut < 0 && env.cap == 0 {
